@@ -266,6 +266,9 @@ def nested_focus(draw):
     where = draw(st.sampled_from(["inner", "outer", "none", "inner"]))
     t_in = draw(gd.legal_spec(max_axes=3, names=["a", "b"], vnames=["v"], multi_prob=0.95 if where == "inner" else 0.0))
     t_out = draw(gd.legal_spec(max_axes=2, names=["a", "b"], vnames=["v"], multi_prob=0.95 if where == "outer" else 0.0))
+    if not t_out and draw(st.integers(0, 3)) != 0:
+        # mostly a non-empty outer spec: then the nested annotation prints (and its dim_str reads) exactly like the flat one
+        t_out = [dl.Token("", "name", draw(st.sampled_from(["b", "a"])))]
     return {"cat": outer, "at": ["nested", inner, dl.spec_spelling(t_in), [draw(st.sampled_from(["np", "np", "any", "duck"]))]], "spec": dl.spec_spelling(t_out)}
 
 
@@ -311,6 +314,49 @@ def run(ctx):
                                 f"{route}: {describe(d)} loaded after its look-alike differs on probe {probe_repr(i % len(probes()))}: original {v0[i]}, reconstructed {v1[i]}")
 
     ctx.hyp(lookalikes, max_examples=ctx.n(40, 300))
+    # loading in one thread while another thread builds / loads / uses annotations of the same category: the harness
+    # owns the schedule (vf/sched.py), every thread must get what it gets alone
+    from vf import sched
+
+    small_probes = [np.zeros((3,), dtype=d) for d in ("int8", "float32", "bool")] + [np.zeros((2, 3), dtype=d) for d in ("int8", "float32")]
+
+    def small_vector(ann):
+        return [obs.verdict(v, ann) for v in small_probes]
+
+    @given(nested_focus(), st.sampled_from([1, 2, 3, 5]), st.lists(st.tuples(st.integers(0, 1), st.sampled_from([1, 3, 8, 20, 50])), max_size=6))
+    def threaded(desc, quantum, segments):
+        obs.reset_state()
+        try:
+            nested = build(desc)
+        except ValueError:
+            return
+        payload = pickle.dumps(nested)
+        flat_payload = pickle.dumps(cat_obj(desc["cat"])[np.ndarray, "n"])
+
+        def loader():
+            out = []
+            for _ in range(2):
+                out.append(small_vector(pickle.loads(payload)))
+            return out
+
+        def other():
+            out = []
+            for i in range(3):
+                out.append(small_vector(cat_obj(desc["cat"])[np.ndarray, "m"]))
+                out.append(small_vector(pickle.loads(flat_payload)))
+            return out
+
+        solo = [sched.run_solo(loader), sched.run_solo(other)]
+        res, s_ = sched.run_interleaved([loader, other], [tuple(x) for x in segments], quantum)
+        if s_.errors:
+            raise HarnessError(f"scheduler: {s_.errors}")
+        ctx.note(["threaded", desc, quantum, segments], True, classes=["threaded-load"], sample={"annotation": describe(desc), "quantum": quantum, "switches": len(s_.switches)})
+        if res != solo:
+            raise Violation("threaded-load", dict(desc, route="threads", quantum=quantum, segments=[list(x) for x in segments]),
+                            f"while one thread unpickled {describe(desc)}, another thread building/loading {desc['cat']}[ndarray,'m'/'n'] got {res[1]} instead of {solo[1]} "
+                            f"(loader: {res[0]} vs {solo[0]}); {len(s_.switches)} context switches")
+
+    ctx.hyp(threaded, max_examples=ctx.n(25, 200))
     # AbstractArray itself round-trips to itself
     for route in ROUTES:
         if roundtrip(AbstractArray, route) is not AbstractArray:
@@ -328,6 +374,8 @@ def replay(case, clause, ctx):
     if "cat" not in case:
         return None if roundtrip(AbstractArray, route) is AbstractArray else "AbstractArray does not round-trip"
     try:
+        if route == "threads":
+            return None  # schedule-dependent: re-derived by the run (vf/sched.py schedules are drawn by Hypothesis)
         if "lookalike_of" in case:
             other = case.pop("lookalike_of")
             flat_first = case.pop("flat_first", True)
